@@ -17,13 +17,21 @@ def run(ctx):
             shapes = [(6, 2, "0-2"), (3, 1, "0")] if ctx.quick else [(2, 1, "0"), (4, 1, "0-1"), (6, 2, "0-2"), (8, 3, "0-7"), (12, 1, "0-3"), (3, 1, "0")]
             for s in shapes:
                 plan.append((variant, kind) + s)
-    for variant, kind, nth, nobj, cores in plan:
+    # first use of fresh objects: many short episodes, the lock objects are re-created before each one
+    for variant, kinds in (("default", ["mutex", "spin"]), ("sync", ["spin"]), ("sim", ["spin"])):
+        for kind in kinds:
+            plan.append((variant, kind, 4, 1, "0-3", True))
+    for item in plan:
+        variant, kind, nth, nobj, cores = item[:5]
+        fresh = len(item) > 5
         exe = build.driver("drv_lock", ["drv_lock.c"], variant=variant)
         label = "%s-%s" % (kind, {"default": "c11"}.get(variant, variant))
-        base = ctx.path("lk_%s_%s_%d_%d" % (variant, kind, nth, nobj))
+        base = ctx.path("lk_%s_%s_%d_%d%s" % (variant, kind, nth, nobj, "_fresh" if fresh else ""))
         # spinning threads on one core burn their time slice: keep spin runs short there
         ops = 80 if kind == "spin" and cores == "0" else (120 if ctx.quick else 250)
         cmd = ["taskset", "-c", cores, exe, base, kind, str(nth), str(nobj), str(5 if ctx.quick else 16), str(ops), str(rng.randint(1, 10 ** 6))]
+        if fresh:
+            cmd = ["taskset", "-c", cores, exe, base, kind, str(nth), str(nobj), str(400 if ctx.quick else 3000), "3", str(rng.randint(1, 10 ** 6)), "1"]
         rc, out, to = run_driver(cmd, timeout=90)
         if to:
             rc, out, to = run_driver(cmd, timeout=90)
